@@ -36,6 +36,12 @@ class Ctx:
         self.tier = tier
         self.seed = seed
         self.model = model if model is not None else Model(overlay)
+        fl = getattr(self.model, 'flat', None)
+        self._flat_stats = None
+        if fl is not None and (fl.inlined or fl.left):
+            self._flat_stats = {'spliced_call_sites': dict(sorted(fl.inlined.items())),
+                                'left_as_calls': {k: sorted(set(v)) for k, v in sorted(fl.left.items())},
+                                'no_longer_referenced': sorted(getattr(fl, 'dead', []))}
         self.only_key = only_key
         self.instances: Dict[str, List[str]] = {}
         self.floors: Dict[str, int] = {}
@@ -48,6 +54,8 @@ class Ctx:
         self.rules: Dict[str, str] = {}
         self.assumptions: List[str] = []
         self.stats: Dict[str, Any] = {}
+        if getattr(self, '_flat_stats', None):
+            self.stats['post_reference_helpers'] = self._flat_stats
         self.consulted: set = set()
 
     # ---------------------------------------------------------------- recording
@@ -75,7 +83,8 @@ class Ctx:
         key = '%s:%s' % (rule, construct) + (':%s' % operand if operand else '')
         if any(v.key == key for v in self.violations):
             return
-        self.violations.append(Violation(rule, key, msg, path, line, witness))
+        from .inline import real_line
+        self.violations.append(Violation(rule, key, msg, path, real_line(line), witness))
 
     def note(self, text: str) -> None:
         if text not in self.notes:
